@@ -76,8 +76,8 @@ CLAIMS["C07"] = dict(
    note="Trusted: rustc MIR, zfacts, rules/c07.py. Five genuine defects of the no-silent-change clause are listed in known_findings.json (not repairable by a small patch: needs a fallible conversion API).",
    ref="4/C07")
 CLAIMS["C04"] = dict(
-   technique="constant-template reconstruction from MIR (symbolic string evaluation of String+&str / format_args / helper calls per path) with guards compared by truth table; guard-set, origin and who-writes rules for the branch-rule code; integer-width vs accepted-length comparison",
-   text="Decides that the Tera templates flow assembles from constants equal the documented table for every option combination (patch / label / number / post / dev guards and contents per post mode, None otherwise, --post default), that 'prefix/*' keeps its separator and numbers are searched only after the prefix, that the first matching rule wins, that explicit flags beat rule values field by field, that the accepted hash length fits the parsing integer (recorded finding: 10 > 9 safe digits of u32) and that hash_int depends only on (value, length, allow_leading_zero) with fixed hasher keys. The composed result on concrete tags and hash_int's digit count are value laws and are not decided.",
+   technique="constant-template reconstruction from MIR (symbolic string evaluation of String+&str / format_args / helper calls per path) with guards compared by truth table; guard-set, origin and who-writes rules for the branch-rule code; integer-width vs accepted-length comparison; complete decision table of FlowArgs::override_dirty by abstract evaluation of its symbolic paths over a finite domain (rules/absint.py)",
+   text="Decides that the Tera templates flow assembles from constants equal the documented table for every option combination (patch / label / number / post / dev guards and contents per post mode, None otherwise, --post default), that 'prefix/*' keeps its separator and numbers are searched only after the prefix, that the first matching rule wins, that explicit flags beat rule values field by field, that the accepted hash length fits the parsing integer (recorded finding: 10 > 9 safe digits of u32) and that hash_int depends only on (value, length, allow_leading_zero) with fixed hasher keys; that the dirty flag handed on is the explicit flag, else tag mode and (dirty or distance > 0), on all 72 rows of override_dirty's table; that the rule list is stored as parsed and an unmatched branch resolves no rule. The composed result on concrete tags and hash_int's digit count are value laws and are not decided.",
    note="Trusted: rustc MIR, zfacts, rules/flowtpl.py. Assumes Tera's boolean operators and truthiness. One genuine defect (R04.5) is in known_findings.json.",
    ref="4/C04")
 CLAIMS["C03"] = dict(
